@@ -99,26 +99,25 @@ func validateUnconnectedProcessors(flow *FlowDirection) error {
 
 // detectCircularConnections detects circular connections in the flow graph.
 func detectCircularConnections(flowDir *FlowDirection) error {
-	if flowDir.GetFlowType().IsResponseType() && !flowDir.HasValidRoot() {
-		return nil
-	}
-
-	rootEdges := flowDir.root.node.edges
-	for _, connection := range rootEdges {
-		if connection.node == nil {
-			continue
+	// Every node can be an entry point of a walk: the root, and - when a processor answers the
+	// request early - the node of the same key in the response direction. Check them all.
+	for _, node := range flowDir.nodes {
+		for _, connection := range node.edges {
+			if connection.node == nil {
+				continue
+			}
+			log.Trace().
+				Str("flowGraphName", connection.node.flowGraphName).
+				Msgf("Validating no circular connections for processor %s", connection.node.processorKey)
+			visitedByCondition := make(
+				map[string]map[string]bool,
+			) // key - condition, value - processorKey
+			proc := connection.node.processorKey
+			if !dfsDetectCycles(connection.node, visitedByCondition, proc, connection.condition) {
+				return fmt.Errorf("circular connection detected - processor '%s'", proc)
+			}
+			log.Trace().Msgf("No cycle detected for processor %s", proc)
 		}
-		log.Trace().
-			Str("flowGraphName", connection.node.flowGraphName).
-			Msgf("Validating no circular connections for processor %s", connection.node.processorKey)
-		visitedByCondition := make(
-			map[string]map[string]bool,
-		) // key - condition, value - processorKey
-		proc := connection.node.processorKey
-		if !dfsDetectCycles(connection.node, visitedByCondition, proc, connection.condition) {
-			return fmt.Errorf("circular connection detected - processor '%s'", proc)
-		}
-		log.Trace().Msgf("No cycle detected for processor %s", proc)
 	}
 
 	return nil
